@@ -1049,7 +1049,7 @@ func (ex *Exec) rangeStmt(st *State, s *ast.RangeStmt, c *ctl, k func(*State)) {
 		ks := ex.sortOf(u.Key())
 		setSort := SetOf(ks)
 		readMap := func(st *State, kk func(*State, Val)) { ex.eval(st, s.X, kk) }
-		readMap(st, func(st1 *State, _ Val) {
+		readMap(st, func(st1 *State, mEntry Val) {
 			empty := Val{T: zeroOf(setSort), S: setSort}
 			ex.assertInvs(st1, "inv-entry", ord, ls, bodyPos, map[string]Val{"$visited": empty})
 			st2 := st1.clone()
@@ -1061,7 +1061,9 @@ func (ex *Exec) rangeStmt(st *State, s *ast.RangeStmt, c *ctl, k func(*State)) {
 				ex.assumeInvs(st3, ord, ls, bodyPos, extra)
 				stE := st3.clone()
 				qk := "q_k"
-				stE.assume("(forall ((" + qk + " " + ks.Name + ")) (=> (select (m-dom " + m.T + ") " + qk + ") (select " + visited.T + " " + qk + ")))")
+				// at the end every key that was in the map when the loop started and is still there has been produced;
+				// a key inserted by the body may or may not be produced (Go leaves it open), so nothing is assumed of it
+				stE.assume("(forall ((" + qk + " " + ks.Name + ")) (=> (and (select (m-dom " + mEntry.T + ") " + qk + ") (select (m-dom " + m.T + ") " + qk + ")) (select " + visited.T + " " + qk + ")))")
 				key := ex.freshVal("k", u.Key())
 				st3.assume(and(app("select", app("m-dom", m.T), key.T), not(app("select", visited.T, key.T))))
 				st3.assume(app(">", app("m-size", m.T), "0"))
